@@ -160,7 +160,11 @@ Definition token_eqb (a b : token) : bool :=
                    reads anything (DatasetSource: one call per page; UnionDatasetSource: one call
                    per run, so only i = 0 can fire). *)
 Inductive fault := FNone | FSinkFail (i : nat) | FSinkPanic (i : nat) | FKill (i : nat)
-                 | FDieBefore (i : nat) | FDieAfter (i : nat) | FSrcFail (i : nat).
+                 | FDieBefore (i : nat) | FDieAfter (i : nat) | FSrcFail (i : nat)
+                 | FSinkReject (x : Z)   (* the sink refuses every batch that contains entity x *)
+                 | FNoSink.              (* the sink dataset does not exist during this run: the sink is
+                                            resolved by NAME at every call (DsManager.IsDataset/GetDataset),
+                                            never through a handle kept from an earlier run *)
 Inductive outcome := OOk | OFailed | ODied.
 
 Definition is_sinkfail (f : fault) (i : nat) := match f with FSinkFail j => Nat.eqb i j | _ => false end.
@@ -171,6 +175,13 @@ Definition is_dieafter (f : fault) (i : nat) := match f with FDieAfter j => Nat.
 
 Definition is_srcfail (f : fault) (i : nat) := match f with FSrcFail j => Nat.eqb i j | _ => false end.
 
+Definition is_nosink (f : fault) := match f with FNoSink => true | _ => false end.
+Definition is_reject (f : fault) (page : list version) :=
+  match f with FSinkReject x => zmem x (ids page) | _ => false end.
+(** sink.processEntities returns an error for this page *)
+Definition sink_fails (f : fault) (i : nat) (page : list version) : bool :=
+  is_sinkfail f i || is_nosink f || is_reject f page.
+
 Definition nonempty {A} (l : list A) : bool := match l with [] => false | _ => true end.
 
 (** ** The processEntities callback of IncrementalPipeline.sync
@@ -178,7 +189,7 @@ Definition nonempty {A} (l : list A) : bool := match l with [] => false | _ => t
     [Some o] if the run ends here with outcome [o], [None] if the loop goes on. *)
 Definition proc_inc {T} (eqf : version -> version -> bool) (dm : dup_mode) (sink : feed) (stored : T)
     (page : list version) (newtok : T) (idx : nat) (flt : fault) : feed * T * option outcome :=
-  if nonempty page && is_sinkfail flt idx then (sink, stored, Some OFailed) else
+  if nonempty page && sink_fails flt idx page then (sink, stored, Some OFailed) else
   let sink1 := ds_write eqf dm sink page in                     (* sink.processEntities *)
   if nonempty page && is_sinkpanic flt idx then (sink1, stored, Some ODied) else
   if is_diebefore flt idx then (sink1, stored, Some ODied) else   (* pipeline.beforeToken *)
@@ -191,7 +202,7 @@ Definition proc_inc {T} (eqf : version -> version -> bool) (dm : dup_mode) (sink
 (** the callback of FullSyncPipeline.sync: the token is only captured in memory *)
 Definition proc_full (eqf : version -> version -> bool) (dm : dup_mode) (sink : feed)
     (page : list version) (idx : nat) (flt : fault) : feed * option outcome :=
-  if nonempty page && is_sinkfail flt idx then (sink, Some OFailed) else
+  if nonempty page && sink_fails flt idx page then (sink, Some OFailed) else
   let sink1 := ds_write eqf dm sink page in
   if nonempty page && is_sinkpanic flt idx then (sink1, Some ODied) else
   if negb (nonempty page) then (sink1, Some OOk) else
@@ -297,7 +308,13 @@ Definition complete (eqf : version -> version -> bool) (dm : dup_mode) (sink : f
 
 (** ** One job run on the persisted state *)
 Record state := mkSt { st_srcs : list feed; st_sink : feed; st_tok : list token }.
-Record rcfg := mkR { r_full : bool; r_union : bool; r_b : nat; r_los : list bool; r_flt : fault }.
+(** the onError handlers of the trigger.  Only [HLog] switches per-entity error handling on
+    (instrumentErrorHandling: eh.Type == ErrorHandlerLog; that is property C17, not modelled
+    here); [HReQueue] is accepted by the configuration but inert, [HReRun] only schedules another
+    run later.  So a run of this model does not look at [r_handlers] at all. *)
+Inductive handler := HLog | HReRun | HReQueue.
+Record rcfg := mkR { r_full : bool; r_union : bool; r_b : nat; r_los : list bool; r_flt : fault;
+                     r_handlers : list handler }.
 
 Definition total_len (srcs : list feed) : nat := fold_right (fun f n => length f + n) 0 srcs.
 Definition fuel_of (srcs : list feed) : nat := total_len srcs + 2 * length srcs + 2.
@@ -335,10 +352,14 @@ Definition run_body (v : variant) (st : state) (r : rcfg) : state * outcome :=
                    (nth 0 (st_tok st) None) 0 (r_flt r) in
       (mkSt srcs s (upd 0 t (st_tok st)), o).
 
-(** the single ReadEntities call of a union source fails: nothing is read or written; a
-    fullsync has already started (sink in fullsync mode, token reset in memory / persisted) *)
+(** the run ends before anything is read or written: the single ReadEntities call of a union
+    source fails, or sink.startFullSync does not find the sink dataset.  A fullsync has already
+    reset its token in memory / (repaired variant) persisted the empty token. *)
+Definition early_fail (r : rcfg) : bool :=
+  (r_union r && is_srcfail (r_flt r) 0) || (r_full r && is_nosink (r_flt r)).
+
 Definition run_job (v : variant) (st : state) (r : rcfg) : state * outcome :=
-  if r_union r && is_srcfail (r_flt r) 0 then
+  if early_fail r then
     (mkSt (st_srcs st) (st_sink st)
           (if r_full r then match vm_fs v with FsKeep => st_tok st | FsReset => none_tokens (st_srcs st) end
            else st_tok st), OFailed)
@@ -348,6 +369,8 @@ Definition run_job (v : variant) (st : state) (r : rcfg) : state * outcome :=
 Inductive op :=
 | OWrite (k : nat) (es : list version)      (* a batch stored into source dataset k *)
 | OSinkWrite (es : list version)            (* somebody else writes into the sink dataset *)
+| ODropSink                                 (* DsManager.DeleteDataset(sink): its content is gone for good *)
+| OCreateSink                               (* the sink dataset is created (again, empty) under its name *)
 | ORun (r : rcfg).
 
 Definition step (v : variant) (st : state) (o : op) : state * option outcome :=
@@ -357,6 +380,8 @@ Definition step (v : variant) (st : state) (o : op) : state * option outcome :=
           (st_sink st) (st_tok st), None)
   | OSinkWrite es =>
     (mkSt (st_srcs st) (ds_write (weq (vm_eq v)) (vm_dup v) (st_sink st) es) (st_tok st), None)
+  | ODropSink => (mkSt (st_srcs st) [] (st_tok st), None)
+  | OCreateSink => (st, None)
   | ORun r => let '(st', o) := run_job v st r in (st', Some o)
   end.
 
@@ -411,5 +436,7 @@ Definition wf_op (owner : Z -> nat) (n : nat) (o : op) : Prop :=
   match o with
   | OWrite k es => k < n /\ forall v, In v es -> owner (v_id v) = k
   | OSinkWrite es => forall v, In v es -> n <= owner (v_id v)
-  | ORun r => 1 <= r_b r /\ 1 <= n /\ (r_union r = false -> n = 1)   (* a DatasetSource job has one source dataset *)
+  | ODropSink => False       (* deleting the sink under a job is outside the guarantee: see nosink lemmas *)
+  | OCreateSink => True
+  | ORun r => 1 <= r_b r /\ 1 <= n /\ (r_union r = false -> n = 1) /\ ~ In HLog (r_handlers r)   (* a DatasetSource job has one source dataset *)
   end.
